@@ -58,8 +58,13 @@ Concat(ss) == IF Len(ss) = 0 THEN <<>> ELSE Head(ss) \o Concat(Tail(ss))
 UpdateOk(r) ==
     LET kv   == KvOf(r.kv)
         root == Root(kv)
+        \* a path marked "foreign" was verified against the root it hashes up to itself, not against Root(kv)
         ups  == [i \in 1..Len(r.ups) |->
-                    [vp |-> VerifyPath(ProofOf(r.ups[i].proof), r.ups[i].key, root), ops |-> r.ups[i].ops]]
+                    LET pf == ProofOf(r.ups[i].proof)
+                        rt == IF "foreign" \in DOMAIN r.ups[i]
+                              THEN HashUp(TermNode(pf.terminal), Prefix(r.ups[i].key, Len(pf.sibs)), pf.sibs)
+                              ELSE root
+                    IN [vp |-> VerifyPath(pf, r.ups[i].key, rt), ops |-> r.ups[i].ops]]
         pre  == UpdatePre(ups, root, 1)
     IN /\ \A i \in 1..Len(ups) : ups[i].vp.t = "Ok"
        /\ r.res = pre
